@@ -133,9 +133,11 @@ def _parse(data: bytes) -> dict:
 
 
 def build_blob(key_identifier: bytes, sid: str, enc_cek: bytes, gcm_nonce: bytes, enc_content: bytes, in_envelope: bool = True,
-               cea_raw: t.Optional[bytes] = None) -> bytes:
-    """cea_raw: a complete replacement for the content-encryption AlgorithmIdentifier (used to build algorithm-substitution faults)."""
-    pd = der.seq(der.enc_oid(OID_SID_DESCRIPTOR), der.seq(der.seq(der.seq(der.utf8("SID"), der.utf8(sid)))))
+               cea_raw: t.Optional[bytes] = None, descriptor: t.Optional[t.Tuple[str, str]] = None) -> bytes:
+    """cea_raw: a complete replacement for the content-encryption AlgorithmIdentifier (used to build algorithm-substitution faults).
+    descriptor: (OID, type string) of another, self-consistent protection descriptor kind (SDDL, LOCAL, KEY_FILE ...) around ``sid``."""
+    d_oid, d_type = descriptor or (OID_SID_DESCRIPTOR, "SID")
+    pd = der.seq(der.enc_oid(d_oid), der.seq(der.seq(der.seq(der.utf8(d_type), der.utf8(sid)))))
     kekid = der.seq(der.octets(key_identifier), der.seq(der.enc_oid(OID_MS_SOFTWARE), pd))
     kekri = der.tlv(2, True, 2, der.enc_int(4) + kekid + der.seq(der.enc_oid(OID_AES256_WRAP)) + der.octets(enc_cek))
     cea = cea_raw if cea_raw is not None else der.seq(der.enc_oid(OID_AES256_GCM), der.seq(der.octets(gcm_nonce), der.enc_int(16)))
